@@ -34,6 +34,7 @@ func schemas3(tier string) []univ.SNode {
 		{Schema: ref.Union(ref.Prim("string")), Chain: "union[string]"},
 		{Schema: ref.Union(ref.Prim("null"), ref.Prim("int"), ref.Prim("long")), Chain: "union[null,int,long]"},
 		{Schema: ref.Array(ref.Union(ref.Prim("int"), ref.Prim("long"))), Chain: "array>union[int,long]", Depth: 1},
+		{Schema: wideFixedUnion(), Chain: "union[70 x fixed4]", Depth: 1},
 	}
 	s = append(s, extra...)
 	s = append(s, univ.SNode{Schema: ref.Prim("string"), Chain: "compressible-block"})
@@ -45,9 +46,21 @@ func schemas3(tier string) []univ.SNode {
 }
 
 // targets3 returns the compatible target field types of a schema node.
+// wideFixedUnion: 70 distinctly named fixed(4) branches, all compatible with a [4]byte target; from branch 64 on the
+// zig-zag selector takes two bytes.
+func wideFixedUnion() *ref.Schema {
+	var bs []*ref.Schema
+	for i := 0; i < 70; i++ {
+		bs = append(bs, ref.Fixed(fmt.Sprintf("WF%02d", i), 4))
+	}
+	return ref.Union(bs...)
+}
+
 func targets3(n univ.SNode) []reflect.Type {
 	i64 := reflect.TypeOf(int64(0))
 	switch n.Chain {
+	case "union[70 x fixed4]":
+		return []reflect.Type{reflect.TypeOf([4]byte{})}
 	case "union[int,long]", "union[long,int]", "union[long]":
 		return []reflect.Type{i64, reflect.TypeOf(int(0))}
 	case "union[null,int,long]":
@@ -62,6 +75,12 @@ func targets3(n univ.SNode) []reflect.Type {
 
 func datums3(n univ.SNode) []ref.Datum {
 	switch n.Chain {
+	case "union[70 x fixed4]":
+		var ds []ref.Datum
+		for _, b := range []int{0, 1, 62, 63, 64, 65, 69} {
+			ds = append(ds, ref.DUnion(b, ref.DFixed(fmt.Sprintf("%c%c%c%c", 'a'+b%26, 'A'+b%26, '0'+b%10, '!'))))
+		}
+		return ds
 	case "union[int,long]":
 		return []ref.Datum{ref.DUnion(0, ref.DInt(-7)), ref.DUnion(1, ref.DLong(1<<40)), ref.DUnion(1, ref.DLong(0))}
 	case "union[long,int]":
@@ -200,6 +219,11 @@ func runNode3(c *fw.Ctx, idx int, n univ.SNode) {
 					k++
 					f := fileCase{schema: rs, datums: recs, encoded: encs, comp: comp, codec: codec, mode: k % filedrv.NumReadModes, encDesc: vec}
 					readAndCompare(c, f, f.bytes(), structFor(ft), false, n.Chain+"|"+typeChain(ft), true)
+					if ti == 0 {
+						// the same file with a second, complete read of it started from inside the callback of its
+						// first record: the outer reader must still deliver the datums
+						nestedReadAndCompare(c, f, f.bytes(), structFor(ft), n.Chain+"|"+typeChain(ft)+"|nested-reader")
+					}
 				}
 			}
 		}
@@ -230,7 +254,7 @@ func init() {
 			if tier == "thorough" {
 				d, cap = 3, "all encodings of a datum at nesting depth <=1, the first 20000 at depth 2 and the first 256 at depth 3 (capped enumerations are counted in the evidence)"
 			}
-			return fmt.Sprintf("files written by the reference writer (never by the library): record{f:S, z:long(sentinel)} for every S of nesting depth <=%d over leaves {boolean,int,long,float,double,bytes,string,fixed,record,date,timestamp-millis/micros,RFC3339 string} and constructors {array,map,record,[null,S],[S,null]} plus type-compatible multi/single-branch unions; per S: every datum of a bounded alphabet × EVERY legal serialisation (arrays/maps split into every composition of blocks, each with or without byte-size prefix; %s) × every compatible Go target (pointer indirection, int/int16/int32/int64, float32/64, null.*, time.Time, *[]T, *map) as single-record files (narrow targets also with a narrow neighbour field that the writer's schema places first), files of 1000 and 20000 identical records (compression ratios far above 32:1), and 2–3-record files under every partition into file blocks × {null,deflate,snappy}, reader chunking rotating; plus streaming use — every sequence of <=6 records over 5 record shapes that allocate 0/1/2/5 pointed-to items with nullable fields null or set, under 2–4 block layouts × codecs rotating, with the callback comparing the delivered record and closing its bank at once or one record later, so that recycled banks are exercised; oracle gv.Expect (value, or 'must be an error' for an integer that does not fit); non-trivial = a distinct (file, target) that was read and compared", d, cap)
+			return fmt.Sprintf("files written by the reference writer (never by the library): record{f:S, z:long(sentinel)} for every S of nesting depth <=%d over leaves {boolean,int,long,float,double,bytes,string,fixed,record,date,timestamp-millis/micros,RFC3339 string} and constructors {array,map,record,[null,S],[S,null]} plus type-compatible multi/single-branch unions (incl. a 70-branch union of fixed(4) types read into [4]byte: two-byte selectors); per S: every datum of a bounded alphabet × EVERY legal serialisation (arrays/maps split into every composition of blocks, each with or without byte-size prefix; %s) × every compatible Go target (pointer indirection, int/int16/int32/int64, float32/64, null.*, time.Time, *[]T, *map) as single-record files (narrow targets also with a narrow neighbour field that the writer's schema places first), files of 1000 and 20000 identical records (compression ratios far above 32:1), and 2–3-record files under every partition into file blocks × {null,deflate,snappy}, reader kinds rotating, each such file also with a second complete ReadFile of it started from inside the callback of its first record; plus streaming use — every sequence of <=6 records over 5 record shapes that allocate 0/1/2/5 pointed-to items with nullable fields null or set, under 2–4 block layouts × codecs rotating, with the callback comparing the delivered record and closing its bank at once or one record later, so that recycled banks are exercised; oracle gv.Expect (value, or 'must be an error' for an integer that does not fit); non-trivial = a distinct (file, target) that was read and compared", d, cap)
 		},
 		Assumptions: []string{
 			"'does not fit is an error' is anchored on integers only; doubles are only decoded into float32 when exactly representable... (datums are exact float32 values or the comparison is value-exact after float32 conversion)",
